@@ -26,6 +26,7 @@ import (
 	"sort"
 	"strings"
 	"sync"
+	"sync/atomic"
 
 	"github.com/google/wuffs/lib/interval"
 	"wvh/hlib"
@@ -709,7 +710,7 @@ func signClass(r IR) string {
 // ---- work items
 
 type item struct {
-	kind string // "api" | "andmax" | "ormax" | "bfr" | "split2" | "split3"
+	kind string // "api" | "andmax" | "ormax" | "bfr" | "split2" | "split3" | "abnn" | "obnn" | "aonn" | "oonn" | "ipu"
 	op   string
 	x, y IR
 	n    *big.Int
@@ -721,7 +722,7 @@ func (c *item) line() string {
 	switch c.kind {
 	case "api":
 		return c.op + " " + showR(c.x) + " " + showR(c.y)
-	case "andmax", "ormax":
+	case "andmax", "ormax", "abnn", "obnn", "aonn", "oonn", "ipu":
 		return c.kind + " " + showR(c.x) + " " + showR(c.y)
 	case "bfr":
 		return "bfr " + c.n.String()
@@ -745,36 +746,62 @@ func (res *result) count(s string) { res.counts = append(res.counts, s) }
 
 var sharedSnapshot0 string
 
+// sharedCorrupt is set when a case saw a package-level value of lib/interval changed.
+var sharedCorrupt atomic.Bool
+
+func guardRange(f func() IR) string {
+	return hlib.Guard(func() string { return "ok " + showR(f()) })
+}
+
 func evalInternal(c *item) *result {
 	res := &result{line: c.line()}
+	x, y := cpR(c.x), cpR(c.y)
+	ordered := finite(x) && finite(y) && !empty(x) && !empty(y)
 	switch c.kind {
 	case "andmax":
-		res.out = hlib.Guard(func() string { return "v " + interval.VerifAndMax(c.x, c.y).String() })
-		if c.x[0].Sign() >= 0 && c.y[0].Sign() >= 0 {
+		res.out = hlib.Guard(func() string { return "v " + interval.VerifAndMax(x, y).String() })
+		if !ordered {
+			res.count("branch:andmax:unordered-operands")
+		} else if c.x[0].Sign() >= 0 && c.y[0].Sign() >= 0 {
 			res.count(andMaxBranch(c.x, c.y))
 		} else {
-			res.count("branch:andmax:complemented-operands")
+			res.count("branch:andmax:negative-operands")
 		}
 	case "ormax":
-		res.out = hlib.Guard(func() string { return "v " + interval.VerifOrMax(c.x, c.y).String() })
-		if c.x[0].Sign() >= 0 && c.y[0].Sign() >= 0 {
+		res.out = hlib.Guard(func() string { return "v " + interval.VerifOrMax(x, y).String() })
+		if !ordered {
+			res.count("branch:ormax:unordered-operands")
+		} else if c.x[0].Sign() >= 0 && c.y[0].Sign() >= 0 {
 			res.count(orMaxBranch(c.x, c.y))
 		} else {
-			res.count("branch:ormax:complemented-operands")
+			res.count("branch:ormax:negative-operands")
 		}
 	case "bfr":
 		n := new(big.Int).Set(c.n)
 		res.out = hlib.Guard(func() string { interval.VerifBitFillRight(n); return "v " + n.String() })
 	case "split2":
 		res.out = hlib.Guard(func() string {
-			a, b, p, q := interval.VerifSplit2Ways(c.x)
+			a, b, p, q := interval.VerifSplit2Ways(x)
 			return fmt.Sprintf("s %s %s %v %v", showR(a), showR(b), p, q)
 		})
 	case "split3":
 		res.out = hlib.Guard(func() string {
-			a, b, p, q, s := interval.VerifSplit3Ways(c.x)
+			a, b, p, q, s := interval.VerifSplit3Ways(x)
 			return fmt.Sprintf("s %s %s %v %v %v", showR(a), showR(b), p, q, s)
 		})
+	case "abnn":
+		res.out = guardRange(func() IR { return interval.VerifAndBothNonNeg(x, y) })
+	case "obnn":
+		res.out = guardRange(func() IR { return interval.VerifOrBothNonNeg(x, y) })
+	case "aonn":
+		res.out = guardRange(func() IR { return interval.VerifAndOneNegOneNonNeg(x, y) })
+	case "oonn":
+		res.out = guardRange(func() IR { return interval.VerifOrOneNegOneNonNeg(x, y) })
+	case "ipu":
+		res.out = guardRange(func() IR { interval.VerifInPlaceUnite(&x, y); return x })
+	}
+	if res.out == "panic" {
+		res.count("out:panic:" + c.kind)
 	}
 	res.count("op:" + c.kind)
 	return res
@@ -799,11 +826,12 @@ func eval(c *item) *result {
 	res := &result{line: c.line()}
 	op := c.op
 	xs, ys := showR(c.x), showR(c.y)
-	xv, yv := cpR(c.x), cpR(c.y) // private copies of the values, for the oracle
+	xv, yv := c.x, c.y           // pristine values, never handed to the implementation
+	px, py := cpR(c.x), cpR(c.y) // the operands the implementation sees
 	var z IR
 	var ok bool
 	out, msg := hlib.GuardMsg(func() string {
-		z, ok = apply(op, c.x, c.y)
+		z, ok = apply(op, px, py)
 		if !ok {
 			return "fail"
 		}
@@ -815,11 +843,18 @@ func eval(c *item) *result {
 	if op == "and" || op == "or" {
 		res.count("class:bitop:" + signClass(xv) + "-" + signClass(yv))
 	}
+	if s := interval.VerifSharedSnapshot(); s != sharedSnapshot0 {
+		// (when cases run in parallel the culprit may be a concurrent case: flush() then
+		// restores the values and re-runs the whole batch sequentially)
+		res.fail("shared-storage:"+op, "the operation changed a package-level value: "+s)
+		sharedCorrupt.Store(true)
+		interval.VerifSharedRestore()
+	}
 	if out == "panic" {
 		res.fail("panic:"+op, "interval op panicked: "+msg)
 		return res
 	}
-	if showR(c.x) != xs || showR(c.y) != ys {
+	if showR(px) != xs || showR(py) != ys {
 		res.fail("operand-mutated:"+op, "operation changed an operand")
 	}
 	xe, ye := empty(xv), empty(yv)
@@ -850,7 +885,7 @@ func eval(c *item) *result {
 		if p == nil {
 			continue
 		}
-		if p == c.x[0] || p == c.x[1] || p == c.y[0] || p == c.y[1] || interval.VerifShared(p) {
+		if p == px[0] || p == px[1] || p == py[0] || p == py[1] || interval.VerifShared(p) {
 			res.fail("shared-storage:"+op, "result shares a *big.Int with an operand or a package-level value")
 			ptrOK = false
 		}
@@ -868,11 +903,12 @@ func eval(c *item) *result {
 			scribble(z[1], -54321)
 		}
 		res.count("freshness-scribbled")
-		if showR(c.x) != xs || showR(c.y) != ys {
-			res.fail("shared-storage:"+op, "mutating the result in place changed an operand: now "+showR(c.x)+" / "+showR(c.y))
+		if showR(px) != xs || showR(py) != ys {
+			res.fail("shared-storage:"+op, "mutating the result in place changed an operand: now "+showR(px)+" / "+showR(py))
 		}
 		if s := interval.VerifSharedSnapshot(); s != sharedSnapshot0 {
 			res.fail("shared-storage:"+op, "mutating the result in place changed a package-level value: "+s)
+			sharedCorrupt.Store(true)
 			interval.VerifSharedRestore()
 		}
 		if z[0] != nil && z[1] != nil && z[0].Cmp(bi(12345)) != 0 {
@@ -1020,11 +1056,12 @@ func eval(c *item) *result {
 
 type runner struct {
 	r     *hlib.Run
+	rng   *hlib.Rand
 	batch []*item
 }
 
 func (q *runner) add(c *item) {
-	c.seed = q.r.Rand.Uint64()
+	c.seed = q.rng.Uint64()
 	q.batch = append(q.batch, c)
 	if len(q.batch) >= 1<<15 {
 		q.flush()
@@ -1059,6 +1096,17 @@ func (q *runner) flush() {
 		}(w)
 	}
 	wg.Wait()
+	if sharedCorrupt.Load() && workers > 1 {
+		// some case corrupted lib/interval's package-level values while others were running:
+		// attribute it exactly by re-running the batch sequentially from restored values
+		interval.VerifSharedRestore()
+		sharedCorrupt.Store(false)
+		for i := 0; i < n; i++ {
+			results[i] = eval(q.batch[i])
+		}
+		q.r.Count("batch-rerun-sequentially")
+	}
+	sharedCorrupt.Store(false)
 	r := q.r
 	for _, res := range results {
 		r.Op(res.line, res.out)
@@ -1146,8 +1194,10 @@ func pow2(k int, d int64) *big.Int {
 
 func main() {
 	r := hlib.Start("C06")
-	rng := r.Rand
-	q := &runner{r: r}
+	// hlib's splitmix state is (seed+n)*G+c, so r.Rand for seed s+1 is r.Rand for seed s shifted
+	// by one draw; fork once so that different seeds give unrelated streams.
+	rng := r.Rand.Fork()
+	q := &runner{r: r, rng: rng}
 	sharedSnapshot0 = interval.VerifSharedSnapshot()
 
 	B := int64(3)
@@ -1216,7 +1266,53 @@ func main() {
 			if n == nil {
 				n = bi(int64(rng.Intn(64)))
 			}
-			q.add(&item{kind: "bfr", n: new(big.Int).Abs(n)})
+			if !rng.Chance(1, 12) {
+				n = new(big.Int).Abs(n) // a negative argument makes bitFillRight panic
+			}
+			q.add(&item{kind: "bfr", n: n})
+		}
+		if i%8 == 1 {
+			// per-function tie, operands mostly satisfying the pre-conditions, sometimes not
+			// (negative / empty / wrong way round: the Go code panics, so must the model)
+			sm := rng.Chance(1, 2)
+			a, b := randRange(rng, sm), randRange(rng, sm)
+			nonneg := func(v IR) IR {
+				if rng.Chance(1, 10) {
+					return v
+				}
+				if v[0] == nil || v[0].Sign() < 0 {
+					v[0] = bi(int64(rng.Intn(6)))
+					if v[0].Sign() > 0 && rng.Bool() {
+						v[0] = new(big.Int).Abs(randMag(rng))
+					}
+				}
+				if v[1] != nil && v[1].Cmp(v[0]) < 0 && !rng.Chance(1, 10) {
+					v[1] = new(big.Int).Add(v[0], new(big.Int).Abs(v[1]))
+				}
+				return v
+			}
+			neg := func(v IR) IR {
+				if rng.Chance(1, 10) {
+					return v
+				}
+				return notRange(nonneg(v))
+			}
+			switch rng.Intn(5) {
+			case 0:
+				q.add(&item{kind: "abnn", x: nonneg(a), y: nonneg(b)})
+			case 1:
+				q.add(&item{kind: "obnn", x: nonneg(a), y: nonneg(b)})
+			case 2:
+				q.add(&item{kind: "aonn", x: neg(a), y: nonneg(b)})
+			case 3:
+				q.add(&item{kind: "oonn", x: neg(a), y: nonneg(b)})
+			default:
+				// inPlaceUnite's receiver is a fresh range built up from makeEmptyRange()
+				if rng.Chance(1, 3) {
+					a = IR{bi(1), bi(-1)}
+				}
+				q.add(&item{kind: "ipu", x: a, y: b})
+			}
 		}
 	}
 	q.flush()
@@ -1232,6 +1328,27 @@ func main() {
 			// as called by andBothNonNeg / orBothNonNeg on complemented operands
 			q.add(&item{kind: "andmax", x: notRange(x), y: notRange(y)})
 			q.add(&item{kind: "ormax", x: notRange(x), y: notRange(y)})
+		}
+		if rng.Chance(1, 16) {
+			// arbitrary finite operands (negative, unordered): answers may be `panic`
+			u, v := randRange(rng, rng.Bool()), randRange(rng, rng.Bool())
+			if finite(u) && finite(v) {
+				q.add(&item{kind: "andmax", x: u, y: v})
+				q.add(&item{kind: "ormax", x: u, y: v})
+			}
+		}
+		if rng.Chance(1, 3) {
+			k := []string{"abnn", "obnn"}[rng.Intn(2)]
+			hx, hy := cpR(x), cpR(y)
+			if rng.Chance(1, 4) {
+				hy[1] = nil
+			}
+			if rng.Chance(1, 8) {
+				hx[1] = nil
+			}
+			q.add(&item{kind: k, x: hx, y: hy})
+			k = []string{"aonn", "oonn"}[rng.Intn(2)]
+			q.add(&item{kind: k, x: notRange(hx), y: hy})
 		}
 		ax, ay := cpR(x), cpR(y)
 		switch rng.Intn(6) {
@@ -1326,6 +1443,16 @@ func main() {
 					q.api(op, cpR(x), cpR(y), 24)
 					r.Count("shift-threshold-2^32")
 				}
+			}
+		}
+	}
+	for _, t := range []int64{0xFFFFFFFE, 0xFFFFFFFF} {
+		xs := []IR{{bi(1), bi(1)}, {bi(-1), bi(-1)}, {bi(-3), bi(5)}, {bi(-9), bi(-2)}, {bi(2), bi(7)}, {nil, bi(-2)}, {bi(3), nil}, {nil, nil},
+			{pow2(130, -1), pow2(130, 1)}, {new(big.Int).Neg(pow2(70, 0)), bi(7)}, randRange(rng, false), randRange(rng, false)}
+		for _, x := range xs {
+			for _, y := range []IR{{bi(t), bi(t)}, {bi(0xFFFFFFFE), bi(t)}, {bi(0), bi(t)}, {bi(200), bi(t)}} {
+				q.api("rsh", cpR(x), cpR(y), 24)
+				r.Count("shift-threshold-rsh-anyx")
 			}
 		}
 	}
